@@ -84,6 +84,162 @@ def train_fixed(run, idx, cls, kw, rng):
     run.add("T%02d_threshold" % idx, ir.build_smt(b, dom + [ir.L("(and %s (not %s))" % (inside, lemma), o, u, r_)], get_values=gv), meta=dict(meta, clause="unbiased_threshold"), timeout=1200)
 
 
+TRAIN_PO2 = [("quantized_po2", dict(bits=4)), ("quantized_po2", dict(bits=6, max_value=4.0)), ("quantized_relu_po2", dict(bits=4))]
+R_MIN = 2.0 ** -23         # draws below this move a code up (recorded finding): kept as a separate region
+SLACK = 2.0 ** -22
+
+
+def train_po2(run, idx, cls, kw, rng):
+  """training phase of the power-of-two quantizers: the draw picks one of the two powers of two enclosing |x|"""
+  from . import c03
+  kws = dict(kw, use_stochastic_rounding=True)
+  cfg = qz.cfg_str(cls, kws)
+  fmt = c03.po2_format(cls, kw)
+  qz.set_learning_phase(1)
+  q = qz.make(cls, kws)
+  tr = qz.Traced(q, ())
+  b = tr.b
+  x, o = tr.xs()[0], tr.outs()[0]
+  us = uniform_nodes(b)
+  if len(us) < 1:
+    run.inconclusive_("%s: no random draw in the training-phase graph" % cfg)
+    return
+  # several draws (the ReLU variant draws once per branch): the clauses are about the draw the output for positive inputs reads;
+  # it is identified by evaluating the translated graph with one draw at a time moved from 0 to just below 1
+  r_ = None
+  for cand in us:
+    outs = []
+    for rv in (0.0, 0.999):
+      fv = {u_.attr: np.float32(0.5) for u_ in us}
+      fv[cand.attr] = np.float32(rv)
+      outs.append(tfg.concrete_env(b, [o], {"x": np.float32(0.3)}, free_vals=fv)[o.nid])
+    if not evalr.same(outs[0], outs[1]):
+      r_ = cand
+  if r_ is None:
+    run.inconclusive_("%s: no draw influences the output at x = 0.3" % cfg)
+    return
+  others = [u_ for u_ in us if u_ is not r_]
+  # translator validation with the draw forced (same stub as the replay)
+  bad = []
+  for xv in [0.3, -1.7, 0.25, 3.9, 0.07, 1.0, 0.7]:
+    for rv in (0.0, 0.25, 0.5, 0.999):
+      if fmt["relu"] and xv < 0:
+        continue
+      real = _eager_with_draw(q, np.float32(xv), np.float32(rv))
+      enc = tfg.concrete_env(b, [o], {"x": np.float32(xv)}, free_vals={u_.attr: np.float32(rv) for u_ in us})[o.nid]
+      run.validated_points += 1
+      if not evalr.same(enc, real):
+        bad.append((xv, rv, float(enc), float(real)))
+  run.validated_graphs += 1
+  if bad:
+    run.inconclusive_("translator mismatch (po2 training phase) for %s: %s" % (cfg, bad[:3]))
+    return
+  run.configs.append(cfg)
+  b.close_stubs()
+  L = ir.fp_lit
+  lo_e, k_e = fmt["min_exp"], fmt["kmax"]
+  meta = dict(cls=cls, kw=kws, phase=1, family="po2")
+  e = "((_ extract 30 23) x_b)"
+  mz = "(= ((_ extract 22 0) x_b) #b00000000000000000000000)"
+  lo = "((_ to_fp 8 24) (concat #b0 %s #b00000000000000000000000))" % e
+  hi = "(fp.mul RNE %s %s)" % (lo, L(2.0))
+  pos = [ir.L("(fp.isPositive {0})", x)] if fmt["relu"] else []
+  fin = [qz.finite_normal(x)]
+  interior = [ir.L("(and (fp.geq (fp.abs {0}) %s) (fp.lt (fp.abs {0}) %s))" % (L(2.0 ** lo_e), L(2.0 ** k_e)), x)]
+  gv = ["x_b", r_.attr]
+  sgn = "(ite (fp.isNegative {0}) (fp.neg %s) %s)"
+  adjacent = "(or (fp.eq {1} %s) (fp.eq {1} %s))" % (sgn % (lo, lo), sgn % (hi, hi))
+  run.add("P%02d_adjacent" % idx, ir.build_smt(b, fin + pos + interior + [ir.L("(not %s)" % mz), ir.L("(not %s)" % adjacent, x, o)], get_values=gv),
+          meta=dict(meta, clause="adjacent_code"), timeout=1200)
+  run.add_twin("P%02d_adjacent" % idx, ir.build_smt(b, fin + pos + interior + [ir.L("(= {0} {0})", o)]), meta=meta)
+  # threshold form of unbiasedness, up to the granularity of the generator: frac = |x|/2^e - 1
+  frac = "(fp.sub RNE (fp.div RNE (fp.abs {0}) %s) %s)" % (lo, L(1.0))
+  up = "(fp.eq (fp.abs {1}) %s)" % hi
+  lemma = "(and (=> (fp.leq {2} (fp.sub RNE %s %s)) %s) (=> (fp.geq {2} (fp.add RNE %s %s)) (not %s)))" % (frac, L(SLACK), up, frac, L(SLACK), up)
+  run.add("P%02d_threshold" % idx, ir.build_smt(b, fin + pos + interior + [ir.L("(not %s)" % mz), ir.L("(not %s)" % lemma, x, o, r_)], get_values=gv),
+          meta=dict(meta, clause="unbiased_threshold"), timeout=1200)
+  # codes are returned unchanged (for every draw that is not below the generator's granularity; that band is its own region)
+  codes = [ir.L("(and (fp.geq (fp.abs {0}) %s) (fp.leq (fp.abs {0}) %s))" % (L(2.0 ** lo_e), L(2.0 ** k_e)), x), mz]
+  run.add("P%02d_code_fixed" % idx, ir.build_smt(b, fin + pos + codes + [ir.L("(fp.geq {0} %s)" % L(R_MIN), r_), ir.L("(not (fp.eq {0} {1}))", o, x)], get_values=gv),
+          meta=dict(meta, clause="codes_unchanged", region="draw_regular"), timeout=1200)
+  run.add("P%02d_code_fixed_r0" % idx, ir.build_smt(b, fin + pos + codes + [ir.L("(fp.lt {0} %s)" % L(R_MIN), r_), ir.L("(not (fp.eq {0} {1}))", o, x)], get_values=gv),
+          meta=dict(meta, clause="codes_unchanged", region="draw_below_granularity"), timeout=1200)
+
+
+def _eager_with_draw(q, x, r):
+  """the real quantizer in the training phase with tf.random.uniform stubbed to the given draw (TF's own affine map kept)"""
+  import tensorflow as tf
+
+  def fake(shape, minval=0, maxval=None, **k):
+    base = tf.fill(shape, tf.constant(np.float32(r), tf.float32))
+    if maxval is None:
+      return base
+    return base * (maxval - minval) + minval
+  qz.set_learning_phase(1)
+  with forced_uniform(fake):
+    return np.float32(np.asarray(q(tf.constant(np.float32(x), tf.float32))).reshape(-1)[0])
+
+
+class forced_uniform(object):
+  """environment stub for the random generator: every `random.uniform` the library can reach (the `tf` alias of
+  qkeras.quantizers is tensorflow.compat.v2, whose `random` namespace is a different module object from tensorflow.random)"""
+
+  def __init__(self, fake):
+    self.fake = fake
+
+  def __enter__(self):
+    import importlib
+    import tensorflow as tf
+    mods = [tf.random]
+    for name in ("qkeras.quantizers", "qkeras.base_quantizer"):
+      try:
+        m = importlib.import_module(name)
+        if hasattr(m, "tf"):
+          mods.append(m.tf.random)
+      except Exception:  # pylint: disable=broad-except
+        pass
+    self.saved = []
+    for m in mods:
+      if all(m is not s[0] for s in self.saved):
+        self.saved.append((m, m.uniform))
+        m.uniform = self.fake
+    return self
+
+  def __exit__(self, *a):
+    for m, f in self.saved:
+      m.uniform = f
+
+
+def replay_po2(rep):
+  from . import c03
+  import math
+  cls, kw, clause = rep["cls"], rep["kw"], rep["clause"]
+  fmt = c03.po2_format(cls, {k: v for k, v in kw.items() if k != "use_stochastic_rounding"})
+  x = ir.bits_f32(rep["x_bits"])
+  r = np.float32(rep.get("r", 0.5))
+  q = qz.make(cls, kw)
+  out = _eager_with_draw(q, x, r)
+  qz.set_learning_phase(0)
+  y = abs(Fraction(float(x)))
+  e = math.floor(math.log2(float(y))) if y > 0 else None
+  if e is not None and Fraction(2) ** e > y:
+    e -= 1
+  lo, hi = Fraction(2) ** e, Fraction(2) ** (e + 1)
+  o = Fraction(float(out))
+  s = -1 if x < 0 else 1
+  detail = dict(x=float(x), draw=float(r), out=float(out), lower_code=float(s * lo), upper_code=float(s * hi), cfg=qz.cfg_str(cls, kw))
+  if clause == "adjacent_code":
+    return o not in (s * lo, s * hi), detail
+  if clause == "codes_unchanged":
+    return o != Fraction(float(x)), detail
+  if clause == "unbiased_threshold":
+    frac = y / lo - 1
+    rr = Fraction(float(r))
+    sl = Fraction(SLACK)
+    return bool((rr <= frac - sl and abs(o) != hi) or (rr >= frac + sl and abs(o) == hi)), dict(detail, frac=float(frac))
+  return False, detail
+
+
 def infer_equal(run, idx, cls, kw, rng):
   """inference phase: the stochastic configuration is the same function as the round-to-nearest one"""
   shape = qlattice.shape_for(cls, kw)
@@ -152,17 +308,17 @@ def replay_concrete(rep):
       return True, dict(error=repr(e)[:200])
     return not (ya.shape == yb.shape and np.array_equal(ya, yb)), dict(out=ya.tolist(), out_deterministic=yb.tolist())
   # training-phase clauses: the draw is forced by stubbing tf.random.uniform (environment stub) to the solver's value
+  if rep.get("family") == "po2":
+    return replay_po2(rep)
   fmt = lattice.fixed_format(cls, {k: v for k, v in kw.items() if k != "use_stochastic_rounding"})
   x = ir.bits_f32(rep["x_bits"])
   r = np.float32(rep.get("r", 0.5))
   qz.set_learning_phase(1)
   q = qz.make(cls, kw)
-  orig = tf.random.uniform
-  tf.random.uniform = lambda shape, minval=0, maxval=None, **k: tf.fill(shape, tf.constant(r, tf.float32))
   try:
-    out = np.float32(np.asarray(q(tf.constant(x, tf.float32))).reshape(-1)[0])
+    with forced_uniform(lambda shape, minval=0, maxval=None, **k: tf.fill(shape, tf.constant(r, tf.float32))):
+      out = np.float32(np.asarray(q(tf.constant(x, tf.float32))).reshape(-1)[0])
   finally:
-    tf.random.uniform = orig
     qz.set_learning_phase(0)
   b = ir.Builder()
   xn = b.input("x")
@@ -211,9 +367,14 @@ def triage(run):
         if k.startswith("rnd_"):
           rv = v
       rep = dict(cls=m["cls"], kw=m["kw"], clause=m["clause"], x_bits=r.model.get("x_b"), r=_fpval(rv))
+      if m.get("family"):
+        rep["family"] = m["family"]
       ok, detail = replay_concrete(rep)
       if ok:
-        run.violation(dict(clause=m["clause"], cls=m["cls"], phase=1), detail, rep)
+        sig = dict(clause=m["clause"], cls=m["cls"], phase=1)
+        if m.get("region"):
+          sig["region"] = m["region"]
+        run.violation(sig, detail, rep)
       else:
         run.inconclusive_("counterexample of %s does not reproduce on the real code: %s" % (o.oid, str(detail)[:300]))
     else:
@@ -245,6 +406,11 @@ def run(tier, seed):
       train_fixed(r, i, cls, kw, rng)
     except tfg.Unsupported as e:
       r.inconclusive_("cannot translate %s: %s" % (qz.cfg_str(cls, kw), e))
+  for i, (cls, kw) in enumerate(TRAIN_PO2 if tier == "thorough" else TRAIN_PO2[:1]):
+    try:
+      train_po2(r, i, cls, kw, rng)
+    except tfg.Unsupported as e:
+      r.inconclusive_("cannot translate %s (training phase): %s" % (qz.cfg_str(cls, kw), e))
   infer = INFER if tier == "thorough" else INFER[::2]
   for i, (cls, kw) in enumerate(infer):
     try:
@@ -268,14 +434,19 @@ def run(tier, seed):
   qz.set_learning_phase(0)
   r.functions = ["stochastic_round", "_round_through (learning-phase switch)", "quantized_bits/quantized_linear/quantized_relu/quantized_tanh/quantized_sigmoid.__call__ "
                  "with use_stochastic_rounding", "stochastic_binary.__call__", "stochastic_ternary.__call__", "binary.__call__ (stochastic branch)",
-                 "_clip_power_of_two (stochastic branch, inference side)"]
+                 "_clip_power_of_two (stochastic branch, both phases)", "stochastic_round_po2"]
   r.bounds = ["training phase: %d fixed-point configurations; x symbolic (exactness region of C01), the random draw a symbolic value r in [0,1)" % len(train),
               "inference phase: %d configurations with use_stochastic_rounding and %d stochastic_binary/ternary configurations, compared for all "
               "inputs with their deterministic counterparts (scalar or (2,2) tensors)" % (len(infer), len(STOCH_CLASSES)),
-              "power-of-two and binary/ternary *training-phase* distributions are not covered (inference side only); binary with a data-dependent "
+              "training phase, power-of-two family (%d configuration(s); thorough: quantized_po2 with and without max_value, quantized_relu_po2 on "
+              "positive inputs): for |x| between the smallest and largest code, the output is one of the two enclosing powers of two, codes are "
+              "returned unchanged, and the upper one is chosen when r <= frac - 2^-22 and not chosen when r >= frac + 2^-22 "
+              "(frac = |x|/2^e - 1, so the mean is |x| up to the generator's granularity)" % (len(TRAIN_PO2) if tier == "thorough" else 1),
+              "binary/ternary *training-phase* distributions are not covered (inference side only); binary with a data-dependent "
               "scale and use_stochastic_rounding is compared on probe tensors only (its exact miter does not finish) and is outside the claim",
               "unbiasedness is stated as the threshold lemma 'upper code iff r <= frac'; the discreteness of the uniform generator is outside the claim"]
   r.assumptions = ["K.learning_phase is absent under the pinned Keras 3: environment stub returning 0 or 1", "RandomUniform = arbitrary value in [0,1)",
+                   "Log / Pow contract stubs as in C03 (po2 training phase)",
                    "replay of training-phase counterexamples stubs tf.random.uniform with the solver's draw"]
   return r.finish("Training phase: the graph traced under learning phase 1 contains the uniform draw as a free symbolic value; the solver decides "
                   "for all (x, r) that the output is the floor- or ceil-code of the clipped surrogate, that codes are returned unchanged and that "
